@@ -395,6 +395,27 @@ func runC18(c *fw.Ctx, idx int) fw.Result {
 		if strings.HasPrefix(sp.cmd, "toprank") && !(withExtra && sp.kind == "no-size-option") {
 			a = append(a, "--size-total", "5")
 		}
+		// the command's other modes: which stage meets the bad input depends on them
+		var modes [][]string
+		switch sp.cmd {
+		case "toma":
+			modes = [][]string{{}, {"--wrap", "7"}}
+		case "topa":
+			modes = [][]string{{}, {"--skip-insertions"}, {"--omit-reference"}, {"--wrap", "9"}}
+		case "samvar", "variants", "variants-stdin":
+			modes = [][]string{{}, {"--aggregate"}, {"--append-snps"}, {"--aggregate", "--threshold", "0.5"}}
+		case "snps":
+			modes = [][]string{{}, {"--aggregate"}, {"--hard-gaps"}}
+		case "closest":
+			modes = [][]string{{}, {"-m", "snp"}, {"-m", "tn93"}}
+		case "closestn":
+			modes = [][]string{{}, {"-m", "snp"}, {"-d", "1000"}}
+		case "toprank", "toprank-csv", "toprank-csv-noquery":
+			modes = [][]string{{}, {"--table"}, {"--no-fill"}}
+		}
+		if len(modes) > 0 {
+			a = append(a, modes[fw.Mix(uint64(idx)*31+7)%uint64(len(modes))]...)
+		}
 		if withExtra {
 			a = append(a, extra...)
 		}
